@@ -494,6 +494,8 @@ def stream_s3(cx):
                     cx.seen.add(hashlib.sha256(r["result"].encode()).hexdigest())
             if " ok " in out or out.endswith(" ok"):
                 ok += 1
+                if r.get("mode", "").startswith("rand:"):
+                    cx.cov["gen_exact_agreements_seeded_mode"] = cx.cov.get("gen_exact_agreements_seeded_mode", 0) + 1
                 o = toks(out)
                 if cx.prop in ("C04", "C05"):
                     # hypotheses and conclusion of C04.generated_bytes_well_formed / C05.protocol0_seven_bit on the real data
@@ -654,20 +656,21 @@ CANON = {"NewObjEx": "ctd", "NewObj": "ct", "Reduce": "ct", "Build": "ot", "Stac
          "LongBinPut": "i", "Memoize": "i", "ReadOnlyBuffer": "iy"}
 
 
-def targeted_search(cx, mismatches, budget=40):
-    """returns number of candidate inputs tried; appends to cx.failing when the property fails on one"""
+def targeted_search(cx, mismatches, budget=320):
+    """returns number of candidate inputs tried; appends to cx.failing when the property fails on one.
+    Candidates = (simulated state, opcode) pairs from S1 disagreements, turned into opcode plans; all candidates
+    are tried without a drain first, then with 1, 2, 3 trailing POPs (breadth before depth)."""
     tried = 0
     key = cx.P["key"]
     seen = set()
     ob = op_bytes()
+    cands = []          # (cfg, plan)
     for m in mismatches:
-        if tried >= budget:
-            break
         head, _, body = m.partition(" :: ")
         h = toks(head)
         if h.get("memo", "0") != "0" or h.get("stack") is None:
             continue
-        stack = "" if h["stack"] == "-" else h["stack"]
+        stack0 = "" if h["stack"] == "-" else h["stack"]
         cats = [c.strip() for c in body.split(" | ")]
         for cat in cats:
             f = cat.split(":")
@@ -677,64 +680,77 @@ def targeted_search(cx, mismatches, budget=40):
                 op, kind = f[2], "effect"
             else:
                 continue
-            if (stack, op, kind) in seen:
+            if (stack0, op, kind) in seen:
                 continue
-            seen.add((stack, op, kind))
+            seen.add((stack0, op, kind))
             if kind == "effect" and op in CANON and ("canon", op) not in seen:
                 seen.add(("canon", op))
-                stacks = [CANON[op], stack]
+                stacks = [CANON[op], stack0]
             else:
-                stacks = [stack]
+                stacks = [stack0]
             for stack in stacks:
-              for p in range(max(INTRO.get(op, 0), 0), 6):
-                  plan = []
-                  ok = True
-                  for k in stack:
-                      r = recipe(k, p)
-                      if r is None:
-                          ok = False
-                          break
-                      plan += r
-                  if not ok:
-                      continue
-                  last = op
-                  if kind == "guard":
-                      # index of the opcode in the IMPLEMENTATION's valid list for this protocol
-                      vm = [c for c in cats if c.startswith("valid_opcodes:P=%d:" % p)]
-                      if not vm or op not in ob:
-                          continue
-                      impl_hex = vm[0].split("impl=")[-1]
-                      lst = [impl_hex[i:i + 2] for i in range(0, len(impl_hex), 2)]
-                      if ob[op] not in lst:
-                          continue
-                      last = "%s@%d" % (op, lst.index(ob[op]))
-                  plan.append(last)
-                  cfg = "P=%d unsafe=%s ext=%s buf=%s mask=0 rate=0000000000000000" % (p, h.get("unsafe", "0"), h.get("ext", "0"), h.get("buf", "0"))
-                  # a depth drift is often re-absorbed by the collapse phase's TUPLE; draining the stack
-                  # with fixed-arity POPs (which treat a MARK as an ordinary element) exposes it
-                  for drain in ([], ["Pop"], ["Pop", "Pop"], ["Pop", "Pop", "Pop"]):
-                      full = plan + drain
-                      out = [l for l in drive("steer %s plan=%s\n" % (cfg, ",".join(full))) if l.startswith("steer ")]
-                      if not out or not out[0].startswith("steer ok"):
-                          continue
-                      b = toks(out[0]).get("bytes", "-")
-                      case = "id=0 %s min=%d max=%d warm=0 mode=arb:%s" % (cfg, len(full), len(full), b)
-                      tried += 1
-                      cx.cov["evaluations"] += 1
-                      try:
-                          if key and key != "gen":
-                              _, v = rerun_case(case)
-                              if v.get(key, "").startswith("FAIL"):
-                                  cx.failing.append(("oracle", case, v[key]))
-                                  return tried
-                          if cx.prop == "C17":
-                              _, tout = rerun_any("S2", case)
-                              if "C17-direct" in tout:
-                                  cx.failing.append(("S2", case, tout.split(" FAIL ", 1)[-1][:400]))
-                                  return tried
-                      except Exception:
-                          pass
-                  break
+                for p in range(max(INTRO.get(op, 0), 0), 6):
+                    plan = []
+                    ok = True
+                    for k in stack:
+                        r = recipe(k, p)
+                        if r is None:
+                            ok = False
+                            break
+                        plan += r
+                    if not ok:
+                        continue
+                    last = op
+                    if kind == "guard":
+                        # index of the opcode in the IMPLEMENTATION's valid list for this protocol
+                        vm = [c for c in cats if c.startswith("valid_opcodes:P=%d:" % p)]
+                        if not vm or op not in ob:
+                            continue
+                        impl_hex = vm[0].split("impl=")[-1]
+                        lst = [impl_hex[i:i + 2] for i in range(0, len(impl_hex), 2)]
+                        if ob[op] not in lst:
+                            continue
+                        last = "%s@%d" % (op, lst.index(ob[op]))
+                    plan.append(last)
+                    cfg = "P=%d unsafe=%s ext=%s buf=%s mask=0 rate=0000000000000000" % (p, h.get("unsafe", "0"), h.get("ext", "0"), h.get("buf", "0"))
+                    cands.append((cfg, plan))
+                    break
+    # a depth drift is often re-absorbed by the collapse phase's TUPLE; draining the stack with fixed-arity
+    # POPs (which treat a MARK as an ordinary element) exposes it
+    for drain in ([], ["Pop"], ["Pop", "Pop"], ["Pop", "Pop", "Pop"]):
+        # one driver call turns all plans of this round into fuzzer bytes
+        reqs = ["steer %s plan=%s" % (cfg, ",".join(plan + drain)) for cfg, plan in cands]
+        if not reqs:
+            break
+        try:
+            outs = [l for l in drive("\n".join(reqs) + "\n") if l.startswith("steer ")]
+        except Exception:
+            outs = []
+        if len(outs) != len(reqs):
+            continue
+        for (cfg, plan), o in zip(cands, outs):
+            if tried >= budget:
+                return tried
+            if not o.startswith("steer ok"):
+                continue
+            full = plan + drain
+            b = toks(o).get("bytes", "-")
+            case = "id=0 %s min=%d max=%d warm=0 mode=arb:%s" % (cfg, len(full), len(full), b)
+            tried += 1
+            cx.cov["evaluations"] += 1
+            try:
+                if key and key != "gen":
+                    _, v = rerun_case(case)
+                    if v.get(key, "").startswith("FAIL"):
+                        cx.failing.append(("oracle", case, v[key]))
+                        return tried
+                if cx.prop == "C17":
+                    _, tout = rerun_any("S2", case)
+                    if "C17-direct" in tout:
+                        cx.failing.append(("S2", case, tout.split(" FAIL ", 1)[-1][:400]))
+                        return tried
+            except Exception:
+                pass
     return tried
 
 
@@ -918,6 +934,8 @@ TRUSTED = [
     "Lean 4.33.0 kernel; axioms propext, Classical.choice, Quot.sound only (audited with #print axioms on every run)",
     "hand-written model lean/PFV/{Sim,SimBytes}.lean as a description of src/generator/{validation,utils,stack_ops}.rs — trusted as far as streams S1 (complete to the stated depth) and S2 (every step of real runs) reach",
     "specification lean/PFV/{Lex,Ref,Spec}.lean as a reading of CPython pickletools and of the property text (cross-checked by tools/specval.py)",
+    "exact generator model lean/PFV/{Gen,Mutators,Enc}.lean and the two entropy ports lean/PFV/Entropy.lean (arbitrary::Unstructured 1.4.2) and lean/PFV/Rand.lean (ChaCha8Rng::seed_from_u64 of rand_chacha 0.9.0 / rand_core 0.9.3 and rand 0.9.2's samplers) — trusted as far as S3/S4/S5 reach: byte-exact agreement with generate()/generate_from_arbitrary(), every mutator call and every adapter draw, in BOTH entropy modes",
+    "hypotheses of the end-to-end theorems that describe data outside the model: FloatOK/FloatAscii (Rust's Display for f64) and ModsOK (data/stdlib_complete.txt), evaluated on the real data on every run",
     "tools/translate.py (regex extraction of tables from /repo; refuses on unknown shapes)",
     "rustc/cargo, the harness /verif/harness, check.py",
 ]
